@@ -470,6 +470,26 @@ def pivotPass (eqs : Array Eqn) (solved pivots : Array Nat) : Nat → Nat → Ar
             | .oob => .oob
     | _, _ => .panic
 
+/-- the state before the main loop -/
+def lazyInit (s : Sys) (su : Setup) (variables : Array Nat) : LSt :=
+  { eqs := s.eqs, weight := su.weight, priority := su.priority,
+    variables := variables.toList.reverse,
+    eqList := (List.range su.priority.size).filter (fun x => su.priority.getD x 0 ≤ 1),
+    dense := #[], solved := #[], pivots := #[],
+    idle := Array.replicate s.numVars true, remaining := s.eqs.size }
+
+/-- after the main loop: solve the dense system, then assign the pivots -/
+def lazyFinish (numVars : Nat) (st' : LSt) : Res (Array Eqn) (Array Nat) :=
+  match gaussEqs numVars st'.dense with
+  | .ok _ sol =>
+    match pivotPass st'.eqs st'.solved st'.pivots st'.solved.size 0 sol with
+    | .ok sol' => .ok st'.eqs sol'
+    | .panic => .panic
+    | .oob => .oob
+  | .err _ => .err st'.eqs
+  | .panic => .panic
+  | .oob => .oob
+
 /-- `Modulo2System::lazy_gaussian_elimination`; the state is the vector of equations -/
 def Sys.lazyGauss (s : Sys) : Res (Array Eqn) (Array Nat) :=
   let numVars := s.numVars
@@ -480,23 +500,8 @@ def Sys.lazyGauss (s : Sys) : Res (Array Eqn) (Array Nat) :=
     | .ok su =>
       match sortVariables numVars numEqs su.weight with
       | .ok variables =>
-        let eqList := (List.range su.priority.size).filter (fun x => su.priority.getD x 0 ≤ 1)
-        let st : LSt :=
-          { eqs := s.eqs, weight := su.weight, priority := su.priority,
-            variables := variables.toList.reverse, eqList := eqList,
-            dense := #[], solved := #[], pivots := #[],
-            idle := Array.replicate numVars true, remaining := numEqs }
-        match lazyLoop su.varToEqs (numVars + numEqs + 1) st with
-        | .ok st' () =>
-          match gaussEqs numVars st'.dense with
-          | .ok _ sol =>
-            match pivotPass st'.eqs st'.solved st'.pivots st'.solved.size 0 sol with
-            | .ok sol' => .ok st'.eqs sol'
-            | .panic => .panic
-            | .oob => .oob
-          | .err _ => .err st'.eqs
-          | .panic => .panic
-          | .oob => .oob
+        match lazyLoop su.varToEqs (numVars + numEqs + 1) (lazyInit s su variables) with
+        | .ok st' () => lazyFinish numVars st'
         | .err st' => .err st'.eqs
         | .panic => .panic
         | .oob => .oob
